@@ -671,6 +671,7 @@ fn run_main(world: &dyn World, args: &Args) -> i32 {
     }
     // A worker killed by a signal: the system under test crashed the process (memory
     // unsafety in native code). Find the run that does it, one run per child process.
+    let mut share_crash: Option<ViolationReport> = None;
     for (start, stride, count, sig) in crashes {
         let mut found: Option<ViolationReport> = None;
         for k in 0..count {
@@ -724,9 +725,17 @@ fn run_main(world: &dyn World, args: &Args) -> i32 {
             });
         }
         let v = found.unwrap();
-        if best.as_ref().map(|b| v.idx < b.idx).unwrap_or(true) {
+        if v.violation.class.starts_with("crash-share:") {
+            // not reproducible from one run: only reported when nothing replayable was found
+            if share_crash.is_none() {
+                share_crash = Some(v);
+            }
+        } else if best.as_ref().map(|b| v.idx < b.idx).unwrap_or(true) {
             best = Some(v);
         }
+    }
+    if best.is_none() {
+        best = share_crash;
     }
     let wall = t0.elapsed().as_secs_f64();
     let mut replay_path = None;
